@@ -1102,6 +1102,17 @@ func (a *A) assembledIn(rule string, f *ssa.Function, dispatch bool) {
 		return
 	}
 	as.item, as.size = gets[0], gets[0].Call.Args[1]
+	// the buffer is exactly as long as the unit: its size is the sum of the payload lengths of THIS packet group, computed
+	// here — a length remembered elsewhere (a field of the accumulator, a parameter) can be stale, and every byte of the
+	// pooled buffer beyond the copied payloads belongs to whoever used the pool item before (another PID, another demuxer)
+	{
+		kSize := fn + "/buffer-size-is-sum-of-payload-lengths"
+		if ok, why := payloadLenSum(as.size); ok {
+			a.R.OK(rule, kSize, a.ipos(gets[0]), "the size passed to bytesPool.get is a loop accumulator that starts at 0 and adds len(p.Payload) per packet")
+		} else {
+			a.R.Bad(rule, kSize, a.ipos(gets[0]), "the size passed to bytesPool.get is not the sum of the payload lengths computed in "+short(f)+" ("+why+"): if it is larger than what the copy loop fills, the parsers read bytes left in the pooled buffer by another unit")
+		}
+	}
 	// the field s of the item is not reassigned here
 	for _, r := range *as.item.Referrers() {
 		if fa, ok := r.(*ssa.FieldAddr); ok {
@@ -1730,4 +1741,56 @@ func (a *A) NoContentFilter() {
 			"whether a decoded section is delivered depends on more than its table id — "+strings.Join(bad, "; "))
 		a.R.Floor(rule, "branch conditions in toData", nif, 6)
 	}
+}
+
+// payloadLenSum: v is a loop-header phi with one constant-0 edge and, on its back edges, v + len(<load of a Payload field>).
+func payloadLenSum(v ssa.Value) (bool, string) {
+	for {
+		if c, ok := v.(*ssa.Convert); ok {
+			v = c.X
+			continue
+		}
+		break
+	}
+	phi, ok := v.(*ssa.Phi)
+	if !ok {
+		return false, "it is " + v.Name() + " = " + v.String() + ", not a loop accumulator"
+	}
+	zero, adds := 0, 0
+	for i, e := range phi.Edges {
+		back := phi.Block().Dominates(phi.Block().Preds[i])
+		if k, isC := ssau.ConstInt(e); isC && k == 0 && !back {
+			zero++
+			continue
+		}
+		b, isB := e.(*ssa.BinOp)
+		if !back || !isB || b.Op != token.ADD {
+			return false, "an incoming value is neither 0 nor accumulator + len(payload)"
+		}
+		other := b.Y
+		if b.Y == ssa.Value(phi) {
+			other = b.X
+		} else if b.X != ssa.Value(phi) {
+			return false, "the back edge does not add to the accumulator itself"
+		}
+		call, isCall := other.(*ssa.Call)
+		if !isCall {
+			return false, "the added value is not len(…)"
+		}
+		if bi, isBuiltin := call.Call.Value.(*ssa.Builtin); !isBuiltin || bi.Name() != "len" || len(call.Call.Args) != 1 {
+			return false, "the added value is not len(…)"
+		}
+		ld, isLoad := call.Call.Args[0].(*ssa.UnOp)
+		if !isLoad || ld.Op != token.MUL {
+			return false, "len is not taken of a loaded Payload field"
+		}
+		if n, okf := ssau.FieldName(ld.X); !okf || n != "Payload" {
+			return false, "len is not taken of a Payload field"
+		}
+		adds++
+	}
+	if zero == 0 || adds == 0 {
+		return false, "the accumulator does not start at 0 or never adds a payload length"
+	}
+	return true, ""
 }
